@@ -24,6 +24,15 @@ PROFILE = {
 ENTRIES = C.RETRY_ENTRIES + ["Retry.context.call", "AsyncPolicy.context.call", "decorator.call", "adecorator.call"]
 
 
+@st.composite
+def abort_case(draw):
+    case = draw(C.with_entry(gen.retry_case(PROFILE), ENTRIES))
+    if case["entry"].split(".")[0] in ("Policy", "AsyncPolicy") and gen.chance(draw, 0.5, "c13-breaker"):
+        # the same runs behind a (closed) circuit breaker: its bookkeeping must not get in the way of an abort or a cancellation
+        case["cfg"]["breaker"] = {"threshold": draw(st.sampled_from([1, 3])), "window": 640, "recovery": 64}
+    return case
+
+
 def check(case: dict) -> Verdict:
     v = Verdict()
     env, cvs = C.run(case)
@@ -229,7 +238,7 @@ PROP = Property(
         "abort after at least one action (p > 0) or cancellation at attempt > 1."
     ),
     streams=[
-        Stream("abort_cancel", check, strategy=C.with_entry(gen.retry_case(PROFILE), ENTRIES), quick=14000, thorough=300000),
+        Stream("abort_cancel", check, strategy=abort_case(), quick=14000, thorough=300000),
         Stream("every_poll_index", check, enum=enum_polls, quick=1, thorough=1, exhaustive=True),
         Stream("cancellation_points", check_injected, strategy=injected_case(), quick=1500, thorough=40000),
         Stream("real_signal", check_signal, strategy=signal_case(), quick=48, thorough=400, per_shard_min=3),
